@@ -18,4 +18,7 @@ Next == st.phase = "go" /\ \E E \in [1..Len(st.f) -> Energies] :
 Spec == Init /\ [][Next]_st
 Lemmas == st.phase = "case" =>
     \A phi \in {QOne, <<7, 10>>}, M \in {QZ, Q(125)} : AggLemmas(phi, M, st.f, st.E)
+\* lumping lemma: every replication pattern with up to RepMax copies per grain
+Lumping == st.phase = "case" =>
+    \A r \in [1..Len(st.f) -> 1..3] : LumpLemma(<<7, 10>>, Q(125), st.f, st.E, r)
 =============================================================================
